@@ -253,7 +253,15 @@ class ProgramRun:
             lg.fill_store(store, items)
             target = store
         state = [[h, v] for h, v in items]
-        code, mlog, out = lg.real_execute(self.sc, target, via_main=via_main)
+        try:
+            code, mlog, out = lg.real_execute(self.sc, target, via_main=via_main)
+        except lg.HarnessError:
+            raise
+        except Exception as e:                     # the code under test raised: a finding, not a harness failure
+            self.viol('jug execute raised an exception', start=state, backend=backend,
+                      exception='%s: %s' % (type(e).__name__, str(e)[:300]))
+            ck.count('execute: raised')
+            return
         if code != 0:
             self.viol('jug execute exited with an error', start=state, backend=backend, code=code, output=out[-600:])
             ck.count('execute: error exit')
@@ -318,7 +326,7 @@ def run(ck):
                       'value per identifier (checked by functionalb on every execute case), and the start store does not '
                       'contradict it', 'C14_closed_barrier_*: Python scoping (wf [] p)']
     rng = ck.rng
-    nprog = ck.n(220, 3000)
+    nprog = ck.n(220, 2600)
     cap = ck.n(36, 80)
     nexec = ck.n(2, 4)
     home = os.environ.get('HOME')
@@ -364,11 +372,15 @@ def run(ck):
                 os.environ['HOME'] = home
     nobs = sum(len(pr.init_obs) + len(pr.exec_obs) for pr in init_runs)
     fails = ck.cases('init', lg.COQ_IMPORTS, INIT_TYPE, 'chk_init', init_cases, shard=12, preamble=PREAMBLE)
-    for i in (fails or []):
+    for i in (fails or [])[:3]:
         pin_init(ck, init_runs[i])
+    if fails and len(fails) > 3:
+        ck.count('init: further programs on which model and jug disagree (not pinned)', len(fails) - 3)
     fails = ck.cases('exec', lg.COQ_IMPORTS, EXEC_TYPE, 'chk_exec', exec_cases, shard=12, preamble=PREAMBLE)
-    for i in (fails or []):
+    for i in (fails or [])[:3]:
         pin_exec(ck, exec_runs[i])
+    if fails and len(fails) > 3:
+        ck.count('execute: further programs on which model and jug disagree (not pinned)', len(fails) - 3)
     ck.case_total = nobs                   # evaluations = (jugfile, store state) pairs, not programs
 
 
